@@ -1,82 +1,11 @@
 /-
-C18 — property theorems (statements only; helper lemmas live in `Proofs/C18.lean`).
+C18 — property theorems (statements only; helper lemmas live in `Proofs/C18.lean`, `Proofs/C18Shift.lean`).
 They are about the polymorphic definitions of `Model/C18.lean` that the native driver runs at `Float`,
 instantiated at an arbitrary ordered field `K` with an arbitrary floor function `fl`
 (`IsFloor fl : ∀ z, fl z ≤ z < fl z + 1`).
 -/
-import Mahotas.Proofs.C18
+import Mahotas.Proofs.C18Shift
 import Mathlib.Data.Rat.Floor
-namespace Mahotas.C18
-open Mahotas
-
-/-- where an integer shift reads along one axis: inside the array the sample itself, outside the sample
-    the border rule of the mode assigns (the mathematical `borderSpec`), or nothing (`constant`/`ignore`) -/
-def shiftIndex (m : Mode) (len : Nat) (n : Int) : Option Int :=
-  if 0 ≤ n ∧ n ≤ (len : Int) - 1 then some n else borderSpec m n len
-
-/-- the source position of output position `p` under the integer shift `d`, axis by axis -/
-def shiftPos (m : Mode) : List Nat → List Int → List Int → Option (List Int)
-  | len :: ls, kk :: ks, d :: ds =>
-    match shiftIndex m len (kk - d), shiftPos m ls ks ds with
-    | some j, some js => some (j :: js)
-    | _, _ => none
-  | _, _, _ => some []
-
-section
-variable {K : Type} [Field K] [LinearOrder K] [IsStrictOrderedRing K]
-
-/-- the knot entries `zoom_shift` precomputes for an integer shift, order 1 -/
-theorem go_int {fl : K → Int} (h : IsFloor fl) (m : Mode) :
-    ∀ (shape : List Nat) (p ds : List Int), (∀ len ∈ shape, 0 < len) → (∀ kk ∈ p, 0 ≤ kk) →
-      pixel.go fl 1 m shape p (ds.map fun (d : Int) => some (-(d : K))) (ds.map fun _ => none)
-        = (shiftPos m shape p ds).map
-            (fun pos => (pos.zip shape).map fun jl => ([jl.1, edgeFold jl.2 (jl.1 + 1)], [(1 : K), 0])) := by
-  intro shape
-  induction shape with
-  | nil => intro p ds _ _; cases p <;> cases ds <;> simp [pixel.go, shiftPos]
-  | cons len ls ih =>
-    intro p ds hs hp
-    cases p with
-    | nil => cases ds <;> simp [pixel.go, shiftPos]
-    | cons kk ks =>
-      cases ds with
-      | nil => simp [pixel.go, shiftPos]
-      | cons d ds =>
-        have hlen : 0 < len := hs len (by simp)
-        have hkk : 0 ≤ kk := hp kk (by simp)
-        have ih' := ih ks ds (fun l hl => hs l (by simp [hl])) (fun k hk => hp k (by simp [hk]))
-        have hc : coord kk.toNat (some (-(d : K))) none = ((kk - d : Int) : K) := by
-          have : ((kk.toNat : Nat) : K) = (kk : K) := by
-            have e : ((kk.toNat : Nat) : Int) = kk := Int.toNat_of_nonneg hkk
-            rw [← Int.cast_natCast, e]
-          simp only [coord, this]; push_cast; ring
-        have hax : axisEntry fl 1 m len ((kk - d : Int) : K)
-            = (shiftIndex m len (kk - d)).map fun j => ([j, edgeFold len (j + 1)], [(1 : K), 0]) := by
-          unfold axisEntry
-          rw [mapCoord_int h]
-          unfold shiftIndex
-          rw [← fixOffset_eq_spec m (kk - d) len (by exact_mod_cast hlen)]
-          by_cases c : 0 ≤ kk - d ∧ kk - d ≤ (len : Int) - 1
-          · have r : List.range (1 + 1) = [0, 1] := rfl
-            obtain ⟨s1, s2⟩ := axisEntry_int1 h len (kk - d)
-            simp only [c, and_self, if_true, Option.map_some, s1, s2, r, List.map_cons, List.map_nil]
-            rw [edgeFold_inside len (kk - d + ((0 : Nat) : Int)) (by simp; omega) (by simp; omega)]
-            simp
-          · simp only [c, if_false]
-            cases hf : fixOffset m (kk - d) len with
-            | none => simp
-            | some j =>
-              have rg := fixOffset_range m (kk - d) len (by exact_mod_cast hlen) j hf
-              have r : List.range (1 + 1) = [0, 1] := rfl
-              obtain ⟨s1, s2⟩ := axisEntry_int1 h len j
-              simp only [Option.map_some, s1, s2, r, List.map_cons, List.map_nil]
-              rw [edgeFold_inside len (j + ((0 : Nat) : Int)) (by simp; omega) (by simp; omega)]
-              simp
-        simp only [List.map_cons, pixel.go, hc, hax, ih', shiftPos]
-        cases shiftIndex m len (kk - d) <;> cases shiftPos m ls ks ds <;> simp
-
-end
-end Mahotas.C18
 
 open Mahotas Mahotas.C18
 
@@ -163,6 +92,48 @@ theorem C18_integer_shift_exact {K : Type} [Field K] [LinearOrder K] [IsStrictOr
       exact hl im.shape p ds pos hsp
     rw [e2]
     simp
+
+/-- **C18-T2 (zero shift).** A zero shift at order 1 returns the input: every pixel inside the array, in
+any dimension and every border mode. -/
+theorem C18_zero_shift_identity {K : Type} [Field K] [LinearOrder K] [IsStrictOrderedRing K]
+    {fl : K → Int} (h : IsFloor fl) (m : Mode) (cval : K) (im : Img K) (p : List Int)
+    (hs : ∀ len ∈ im.shape, 0 < len) (hp : inside im.shape p = true) :
+    pixel fl 1 m cval im ((p.map fun _ => (0 : Int)).map fun (d : Int) => some (-(d : K)))
+        ((p.map fun _ => (0 : Int)).map fun _ => none) p = im.getD p 0 := by
+  have hnn : ∀ kk ∈ p, 0 ≤ kk := by
+    have : ∀ (shape : List Nat) (p : List Int), inside shape p = true → ∀ kk ∈ p, 0 ≤ kk := by
+      intro shape
+      induction shape with
+      | nil => intro p hp; cases p <;> simp_all [inside]
+      | cons len ls ih =>
+        intro p hp
+        cases p with
+        | nil => simp
+        | cons kk ks =>
+          simp only [inside, Bool.and_eq_true, decide_eq_true_eq] at hp
+          intro k hk
+          rcases List.mem_cons.mp hk with rfl | hk
+          · exact hp.1.1
+          · exact ih ks hp.2 k hk
+    exact this im.shape p hp
+  rw [C18_integer_shift_exact h m cval im p _ hs hnn, shiftPos_zero m im.shape p hp]
+
+/-- **C18-T2 (orders 2–4 at integer coordinates).** At an integer coordinate the weights of orders 2, 3, 4
+are the B-spline sampled at the integers — `(1/8, 3/4, 1/8)`, `(1/6, 2/3, 1/6, 0)`,
+`(1/384, 19/96, 115/192, 19/96, 1/384)` — centred on that coordinate: what `shift`/`zoom` return at
+integer coordinates is the sampled-B-spline combination of the coefficients around it, i.e. exactly the
+quantity `spline_filter` is required to make equal to the input sample ("the B-spline expansion
+reproduces the input at the sample points"; that the recursive filter achieves this is checked on the
+real output by the correspondence run, not proved). -/
+theorem C18_integer_weights {K : Type} [Field K] [LinearOrder K] [IsStrictOrderedRing K]
+    {fl : K → Int} (h : IsFloor fl) (n : Int) :
+    (startIdx fl 2 (n : K) = n - 1 ∧ weights fl 2 (n : K) = [1 / 8, 3 / 4, 1 / 8]) ∧
+    (startIdx fl 3 (n : K) = n - 1 ∧ weights fl 3 (n : K) = [1 / 6, 2 / 3, 1 / 6, 0]) ∧
+    (startIdx fl 4 (n : K) = n - 2 ∧ weights fl 4 (n : K) = [1 / 384, 19 / 96, 115 / 192, 19 / 96, 1 / 384]) := by
+  refine ⟨⟨?_, weights_int2 h n⟩, ⟨?_, weights_int3 h n⟩, ⟨?_, weights_int4 h n⟩⟩
+  · simp only [startIdx, q_half, h.int_half]; simp
+  · simp [startIdx, h.int]
+  · simp only [startIdx, q_half, h.int_half]; simp
 
 /-- **C18-T3 (shape and corners).** `zoom` onto a requested shape returns an image of exactly that shape
 (also through `resize_to`, `resize_rgb_to`, `imresize` with an integer size, which pass the requested
